@@ -528,7 +528,7 @@ def gen_csv_spec(rng, max_rows=6):
 		grid[0] = grid[0] + ["1"] * (ncols - len(grid[0]))
 	# a record that is a single empty cell is written by csv.writer as '""' (not a blank line) - keep as is
 	return {"op": "csv", "header": header if has_header else None, "grid": grid, "delimiter": delimiter,
-		"has_header": has_header, "ncols": ncols, "via": rng.choice(["fileobj", "fileobj", "path"]), "pattern": pattern}
+		"has_header": has_header, "ncols": ncols, "via": rng.choice(["fileobj", "fileobj", "path"]), "pattern": pattern, "suffix": rng.choice([".csv", ".csv", ".tsv", ".TAB", ".txt", ".tab", ""])}
 
 
 def gen_csv_long(rng):
@@ -570,7 +570,7 @@ def do_csv(spec):
 	from ..bind import serif
 	text = csv_text(spec)
 	if spec.get("via") == "path":
-		fd, path = tempfile.mkstemp(prefix="serifmon-", suffix=".csv")
+		fd, path = tempfile.mkstemp(prefix="serifmon-", suffix=spec.get("suffix", ".csv"))      # (the name of the file says nothing about its contents)
 		try:
 			with os.fdopen(fd, "w", encoding="utf-8", newline="") as f:
 				f.write(text)
